@@ -112,7 +112,8 @@ def arbitrate(ctx, kind, suspects, stats, label="arb"):
     """histories whose replay departed from AutoFlush.tla: the recorded history is validated against the conservation core
     (AutoFlushTrace, flush timing left open).  Rejected -> violation; accepted -> the automatic-flush policy differs from the
     model, which no listed property fixes: reported as model drift."""
-    suspects = sorted(suspects, key=lambda x: len(x[0]))[:40]
+    # (a deterministic selection: the order in which TLC's workers print the generated histories varies from run to run)
+    suspects = sorted(suspects, key=lambda x: (len(x[0]), json.dumps(brief(x[0]))))[:60]
     drift = 0
     rounds = 0
     while suspects and rounds < 4:
